@@ -1471,6 +1471,8 @@ def _compute_minmax_args(
             # best value is a fill value, find the first occurrence of it
             current_coord = np.array(-1, dtype=coords.dtype)
             found = False
+            # a stored value equal to the fill value counts as a fill value
+            masked_reduce_coords = masked_reduce_coords[masked_data != fill_value]
             for idx, new_coord in enumerate(np.nditer(np.sort(masked_reduce_coords))):
                 # there is at least one fill value between consecutive non-fill values
                 if new_coord - current_coord > 1:
